@@ -20,8 +20,7 @@ EXPLANATION = (
 
 def run(ctx):
     src = ctx.src
-    ai = EngineAI(src)
-    ai.run_all()
+    ai = EngineAI.shared(src)
     m = ai.m
     for rid, text in (
         ('C08.R1', '_process_batch iterates the request items in order; every non-raising path through the loop body appends exactly one ResponseBatchItem echoing the request item\'s operation and ID; break only under error_occurred and STOP; the per-item try has KmipError and catch-all arms which set error_occurred'),
